@@ -176,11 +176,13 @@ fn lib_decode_hdr(full: &[u8], wire_order: Option<&[u8]>) -> String {
     }
 }
 
-const IFACES: &[&str] = &["a.b", "org.freedesktop.DBus", "a.b.c.d.e", "x1._y.z", "bad", "a..b", "1a.b", "a.b\u{e9}", "", ".", "a.", ".a"];
+const IFACES: &[&str] = &["a.b", "org.freedesktop.DBus", "a.b.c.d.e", "x1._y.z", "bad", "a..b", "1a.b", "a.b\u{e9}", "", ".", "a.", ".a", ":1.5", "org.x-y.z", "a._7", "/a"];
 const MEMBERS: &[&str] = &["M", "Ping", "Get_All9", "abcdefgh", "_x", "1bad", "a.b", "", "-Frob", ".Get", " Get", "Ge-t"];
 const PATHS: &[&str] = &["/", "/a", "/org/x_1", "/a/b/c/d", "/0", "/org/0a/7", "/_", "a", "/a/", "//", "/a-b", "/a/.b", ""];
-const BUSES: &[&str] = &[":1.5", "a.b", "org.x-y.z", ":1.42.7", "a._7", "a", ".a.b", "a.1b", "org.7zip.x", "a.b.2nd", ":1..5", ":1.", ":.1", "a..b", ":", "", ".", ":."];
-const ERRS: &[&str] = &["a.b.Err", "org.freedesktop.DBus.Error.Failed", "E", "a.b-c", "", ".", "a..b", "1a.b"];
+const BUSES: &[&str] = &[":1.5", "a.b", "org.x-y.z", ":1.42.7", "a._7", "a", ".a.b", "a.1b", "org.7zip.x", "a.b.2nd", ":1..5", ":1.", ":.1", "a..b", ":", "", ".", ":.", "/a", "M", "a.b.Err"];
+// (the pools share strings on purpose: a name that is valid as one kind of name and invalid as another must get
+// the right verdict whichever field it was seen in before)
+const ERRS: &[&str] = &["a.b.Err", "org.freedesktop.DBus.Error.Failed", "E", "a.b-c", "", ".", "a..b", "1a.b", ":1.5", "org.x-y.z", "a.b"];
 
 fn pick_name(rng: &mut Prng, pool: &[&str], pad_to: Option<usize>) -> String {
     let mut s = rng.pick(pool).to_string();
@@ -280,8 +282,19 @@ pub fn run_c05(cfg: &Cfg) {
                 }
                 // body
                 let mut nfds = 0;
-                match rng.below(5) {
+                let mut bad_body_sig = false;
+                match rng.below(6) {
                     0 => {}
+                    5 => {
+                        // a body whose signature is not a valid signature (a container as dict key, 33 array levels, an
+                        // unclosed struct, ...): typed pushes do not validate what they accumulate, `from_parts` takes any
+                        // string; the SIGNATURE header field must not carry it
+                        let a33 = format!("{}y", "a".repeat(33));
+                        let bad = *rng.pick(&["a{(yy)y}", a33.as_str(), "(", "a{vs}", "a{s}", "()", "yz"]);
+                        msg.body = rustbus::message_builder::MarshalledMessageBody::from_parts(vec![0u8; 8], 0, vec![], bad.to_string(), bo);
+                        out.hit("body_with_invalid_signature");
+                        bad_body_sig = true;
+                    }
                     1 => msg.body.push_param(rng.next() as u32).unwrap(),
                     2 => msg.body.push_param("hello").unwrap(),
                     3 => {
@@ -343,9 +356,9 @@ pub fn run_c05(cfg: &Cfg) {
                     && msg.dynheader.member.as_deref().map(|s| vcore_spec("member", s)).unwrap_or(true)
                     && msg.dynheader.object.as_deref().map(|s| vcore_spec("path", s)).unwrap_or(true)
                     && msg.dynheader.error_name.as_deref().map(|s| vcore_spec("errname", s)).unwrap_or(true);
-                let should = names_ok && typ != MessageType::Invalid;
+                let should = names_ok && typ != MessageType::Invalid && !bad_body_sig;
                 if ok != should {
-                    out.violation(&req, &format!("marshal {} a message that is {}", if ok { "accepted" } else { "refused" }, if should { "valid" } else { "invalid (bad name or Invalid type)" }));
+                    out.violation(&req, &format!("marshal {} a message that is {}", if ok { "accepted" } else { "refused" }, if should { "valid" } else { "invalid (bad name, Invalid type or invalid body signature)" }));
                 }
                 out.hit(if ok { "marshal_ok" } else { "marshal_refused" });
                 out.case(&req, &if ok { hex(&buf) } else { "refuse".to_string() }, round == 0 || !ok);
@@ -495,7 +508,7 @@ pub fn run_c05(cfg: &Cfg) {
         }
     }
     out.finish(
-        "flags: all 3 x 256 (exhaustive); builder messages: 5 types x all 128 subsets of the 7 optional header fields x name pools (valid and invalid names, lengths stretched so that fields end at every residue) x 5 body kinds (empty, u32, string, random Param, 1-3 descriptors) x flags x serial boundary values x {LE,BE}, marshalled (h.mar), checked for conformance with an independent field walker and decoded again by the library (h.msg); standard_messages constructors; distinct by request",
+        "flags: all 3 x 256 (exhaustive); builder messages: 5 types x all 128 subsets of the 7 optional header fields x name pools (valid and invalid names, lengths stretched so that fields end at every residue) x 6 body kinds (empty, u32, string, random Param, 1-3 descriptors, a body under an invalid signature) x flags x serial boundary values x {LE,BE}, marshalled (h.mar), checked for conformance with an independent field walker and decoded again by the library (h.msg); standard_messages constructors; distinct by request",
         false,
     );
 }
@@ -832,6 +845,87 @@ pub fn run_c06(cfg: &Cfg) {
         // frame size computation of a real RecvConn on the first 16 bytes
         if i % 4 == 0 {
             need_case(&mut out, &mut pair, &bytes[..16]);
+        }
+    }
+    // an unknown field whose variant signature holds MORE THAN ONE complete type ("uu", "yy", "us"), followed by bytes
+    // that keep the field array well formed (the second value, nothing, zeros): not a valid variant, the header is refused
+    for le in [true, false] {
+        for (sig, vals) in [("uu", vec![('u', 1u32), ('u', 2)]), ("yy", vec![('y', 1), ('y', 2)]), ("us", vec![('u', 7), ('s', 0)]), ("uy", vec![('u', 7), ('y', 0)])] {
+            for tail in 0..3u8 {
+                for pos_last in [true, false] {
+                    let u32b = |v: u32| if le { v.to_le_bytes() } else { v.to_be_bytes() };
+                    let mut b = vec![if le { b'l' } else { b'B' }, 4, 0, 1];
+                    b.extend_from_slice(&u32b(0));
+                    b.extend_from_slice(&u32b(9));
+                    b.extend_from_slice(&[0, 0, 0, 0]);
+                    let put_str_field = |b: &mut Vec<u8>, code: u8, t: u8, text: &str| {
+                        while b.len() % 8 != 0 {
+                            b.push(0);
+                        }
+                        b.extend_from_slice(&[code, 1, t, 0]);
+                        b.extend_from_slice(&u32b(text.len() as u32));
+                        b.extend_from_slice(text.as_bytes());
+                        b.push(0);
+                    };
+                    let put_unknown = |b: &mut Vec<u8>| {
+                        while b.len() % 8 != 0 {
+                            b.push(0);
+                        }
+                        b.push(42);
+                        b.push(sig.len() as u8);
+                        b.extend_from_slice(sig.as_bytes());
+                        b.push(0);
+                        // tail 0: both values; 1: only the first value; 2: the first value and zeros up to the boundary
+                        for (i, (t, v)) in vals.iter().enumerate() {
+                            if i == 1 && tail == 1 {
+                                break;
+                            }
+                            if i == 1 && tail == 2 {
+                                while b.len() % 8 != 0 {
+                                    b.push(0);
+                                }
+                                break;
+                            }
+                            match t {
+                                'y' => b.push(*v as u8),
+                                'u' => {
+                                    while b.len() % 4 != 0 {
+                                        b.push(0);
+                                    }
+                                    b.extend_from_slice(&u32b(*v));
+                                }
+                                _ => {
+                                    while b.len() % 4 != 0 {
+                                        b.push(0);
+                                    }
+                                    b.extend_from_slice(&u32b(0));
+                                    b.push(0);
+                                }
+                            }
+                        }
+                    };
+                    put_str_field(&mut b, 1, b'o', "/a");
+                    put_str_field(&mut b, 2, b's', "a.b");
+                    if !pos_last {
+                        put_unknown(&mut b);
+                    }
+                    put_str_field(&mut b, 3, b's', "M");
+                    if pos_last {
+                        put_unknown(&mut b);
+                    }
+                    let flen = (b.len() - 16) as u32;
+                    b[12..16].copy_from_slice(&u32b(flen));
+                    while b.len() % 8 != 0 {
+                        b.push(0);
+                    }
+                    let obs = lib_decode_msg(&b, Some(&[1, 2, 3]));
+                    if obs != "reject" {
+                        out.violation(&format!("h.msg {}", hex(&b)), &format!("a header with an unknown field whose variant signature is {:?} (two complete types) was accepted: {}", sig, obs));
+                    }
+                    out.hit("unknown_field_multi_type_variant");
+                    out.case(&format!("h.msg {}", hex(&b)), &obs, true);
+                }
+            }
         }
     }
     // announced lengths around the limits
